@@ -1202,23 +1202,25 @@ fn t_threads(rng: &mut Rng, stats: &mut Stats) {
 	// half of the histories: a union with several NAMED branches, each thread presenting another branch first (whatever
 	// a schema node remembers about the first caller, the first callers are then different and concurrent)
 	let named_union = rng.bool();
+	const N_UNIONS: u16 = 6;
 	let ty = if named_union {
 		stats.op("threads:union-of-named-branches");
+		// several independent union nodes, each with two named branches: every one of them is a separate chance for
+		// two threads to be its first users at the same moment with different branches
 		Ty::Record {
 			name: 0,
-			fields: vec![
-				(
-					0,
-					Ty::Union(vec![
-						Ty::Record { name: 1, fields: vec![(0, Ty::Int)] },
-						Ty::Record { name: 2, fields: vec![(0, Ty::Int)] },
-						Ty::Enum { name: 3, symbols: 3 },
-						Ty::Fixed { name: 4, size: 2 },
-						Ty::Null,
-					]),
-				),
-				(1, Ty::Long),
-			],
+			fields: (0..N_UNIONS)
+				.map(|i| {
+					(
+						i,
+						Ty::Union(vec![
+							Ty::Record { name: 1 + 2 * i, fields: vec![(0, Ty::Int)] },
+							if i % 2 == 0 { Ty::Record { name: 2 + 2 * i, fields: vec![(0, Ty::Int)] } } else { Ty::Enum { name: 2 + 2 * i, symbols: 3 } },
+							Ty::Null,
+						]),
+					)
+				})
+				.collect(),
 		}
 	} else {
 		gen_small_schema(rng)
@@ -1228,15 +1230,17 @@ fn t_threads(rng: &mut Rng, stats: &mut Stats) {
 	let vals: Vec<Vec<Val>> = if named_union {
 		(0..n_threads)
 			.map(|t| {
-				(0..2 + rng.usize(2))
+				(0..2)
 					.map(|j| {
-						let b = (t + j * (1 + t)) % 4;
-						let inner = match b {
-							0 | 1 => Val::Record(vec![Val::Int(rng.range(-5, 5) as i32)]),
-							2 => Val::Enum(rng.below(3) as u16),
-							_ => Val::Fixed(rng.bytes(2)),
-						};
-						Val::Record(vec![Val::Union(b as u16, Box::new(inner)), Val::Long(rng.range(-100, 100))])
+						Val::Record(
+							(0..N_UNIONS as usize)
+								.map(|i| {
+									let b = (t + i + j * (i + 1)) % 2;
+									let inner = if b == 0 || i % 2 == 0 { Val::Record(vec![Val::Int(rng.range(-5, 5) as i32)]) } else { Val::Enum(rng.below(3) as u16) };
+									Val::Union(b as u16, Box::new(inner))
+								})
+								.collect(),
+						)
 					})
 					.collect()
 			})
@@ -1262,7 +1266,9 @@ fn t_threads(rng: &mut Rng, stats: &mut Stats) {
 		.map(|vs| vs.iter().map(|v| encode(&schema_seq, &env, &ty, v, PresCfg::plain()).unwrap_or_else(|e| mismatch!("sequential encode: {e}"))).collect())
 		.collect();
 	let (codec, _) = pick_codec(rng);
-	let files: Vec<Vec<u8>> = vals.iter().map(|vs| make_file(&schema_seq, &env, &ty, vs, codec, &mut rng.fork())).collect();
+	// (the named-union histories are about the serializer's lookups: no container files there, which keeps them
+	// cheap enough under Miri to run many)
+	let files: Vec<Vec<u8>> = if named_union { vals.iter().map(|_| vec![]).collect() } else { vals.iter().map(|vs| make_file(&schema_seq, &env, &ty, vs, codec, &mut rng.fork())).collect() };
 	let schema: Schema = if rng.bool() {
 		stats.op("threads:first-use-is-concurrent");
 		drop(schema_seq);
@@ -1273,9 +1279,11 @@ fn t_threads(rng: &mut Rng, stats: &mut Stats) {
 	let worker = |schema: &Schema, ty: &Ty, vs: &[Val], exp: &[Vec<u8>], file: &[u8]| {
 		let env = Env::build(ty);
 		// Debug rendering walks the node graph (with a thread-local depth guard)
-		let dbg = format!("{schema:?}");
-		if dbg.is_empty() {
-			mismatch!("empty Debug rendering");
+		if !file.is_empty() {
+			let dbg = format!("{schema:?}");
+			if dbg.is_empty() {
+				mismatch!("empty Debug rendering");
+			}
 		}
 		for (v, e) in vs.iter().zip(exp) {
 			let b = encode(schema, &env, ty, v, PresCfg::plain()).unwrap_or_else(|e| mismatch!("concurrent encode: {e}"));
@@ -1286,6 +1294,9 @@ fn t_threads(rng: &mut Rng, stats: &mut Stats) {
 				Ok(got) if got == *v => {}
 				other => mismatch!("concurrent deserialization gave {other:?}"),
 			}
+		}
+		if file.is_empty() {
+			return;
 		}
 		let mut reader = Reader::from_slice(file).unwrap_or_else(|e| mismatch!("concurrent Reader::from_slice: {e}"));
 		for v in vs {
